@@ -61,9 +61,12 @@ def pristine_handler(req):
         _, cfg, pred, ref, dtype = req
         ev = lib.evaluator(cfg)
         p, r = _build_inputs(dtype, "C", pred, ref)
-        with H.quiet():
-            out = ev.evaluate(p, r)
-        return {g: meta.observe(res) for g, (res, _) in out.items()}
+        try:
+            with H.quiet():
+                out = ev.evaluate(p, r)
+                return {g: meta.observe(res) for g, (res, _) in out.items()}
+        except Exception as e:  # noqa - an input this configuration refuses (e.g. clDSC on 1-D data, a handler without an entry for a metric)
+            return {"__raised__": type(e).__name__}
     if kind == "keys":
         with H.quiet():
             return list(lib.evaluator(req[1]).resulting_metric_keys)
@@ -105,7 +108,7 @@ def ask(req):
 @st.composite
 def ev_cfg(draw, it, labels):
     imets = draw(st.sampled_from([None, ["DSC"], ["DSC", "IOU"], ["IOU", "ASSD", "RVD"], ["DSC", "IOU", "ASSD", "RVD"]]))
-    gmets = draw(st.sampled_from([None, [], ["DSC", "IOU"]]))
+    gmets = draw(st.sampled_from([None, [], ["DSC", "IOU"], ["DSC", "clDSC"]]))
     eff_i = imets or ["DSC", "IOU", "ASSD", "RVD"]
     dec = None
     if draw(st.integers(0, 2)) == 0:
@@ -124,7 +127,8 @@ def ev_cfg(draw, it, labels):
         "input": it, "backend": draw(st.sampled_from([None, "cc3d", "scipy"])) if it == "SEMANTIC" else None,
         "matcher": None if it == "MATCHED_INSTANCE" else {"kind": "merge" if kind == "merge" else "naive", "metric": draw(st.sampled_from(["IOU", "DSC"])), "thr": draw(st.sampled_from([0.0, 0.3, 0.5])), "m2o": kind == "naive_m2o"},
         "decision": dec, "imetrics": imets, "gmetrics": gmets,
-        "handler": draw(handler_cfg(sorted(set(eff_i) | set(gmets or ["DSC"])))) if draw(st.integers(0, 3)) == 0 else None,
+        # usually a handler covering every metric in use; sometimes one that lacks entries (zero-TP inputs are then refused)
+        "handler": draw(handler_cfg(sorted(set(eff_i) | set(gmets or ["DSC"])) if draw(st.integers(0, 3)) else ["DSC"])) if draw(st.integers(0, 3)) == 0 else None,
         "groups": groups, "flags": flags,
     }
 
@@ -191,6 +195,14 @@ def history(max_steps):
             usable = [l for l in labels if l < 256 or dt != "uint8"]
             p, r = draw(gen.pair(ndims=(nd,), k=len(usable) + 1, derived_weight=3))
             ins.append({"pred": _map_to_labels(p, usable).tolist(), "ref": _map_to_labels(r, usable).tolist(), "layout": draw(st.sampled_from(["C", "C", "F", "neg"])), "dtype": dt})
+        if draw(st.integers(0, 4)) == 0:
+            # a label that belongs to no class group (7 is never among the generated labels): evaluators with
+            # groups refuse such an input - and must leave it alone
+            x = ins[draw(st.integers(0, nin - 1))]
+            side = draw(st.sampled_from(["pred", "ref"]))
+            a = np.array(x[side])
+            a[tuple(draw(st.integers(0, n - 1)) for n in a.shape)] = 7
+            x[side] = a.tolist()
         if it == "SEMANTIC" and draw(st.integers(0, 2)) == 0:
             ins[draw(st.integers(0, nin - 1))] = draw(tie_input(labels[0]))
         if nin >= 2 and draw(st.booleans()):  # one input is another one with prediction and reference exchanged
@@ -263,6 +275,34 @@ def check(case, stats):
     arrays = [_build_inputs(x.get("dtype") or dtype, x["layout"], x["pred"], x["ref"]) for x in case["inputs"]]
     copies = [(p.copy(), r.copy()) for p, r in arrays]
     metas = [[(a.dtype, a.shape, a.strides, a.flags.c_contiguous, a.flags.f_contiguous, a.flags.writeable) for a in pr] for pr in arrays]
+    def may_refuse(c):
+        """Configurations that legitimately refuse some inputs: clDSC (2-D/3-D only) as a global metric, a handler
+        without an entry for every metric in use (zero-TP inputs)."""
+        h = c.get("handler")
+        used = set(c.get("imetrics") or ["DSC", "IOU", "ASSD", "RVD"]) | set(c.get("gmetrics") if c.get("gmetrics") is not None else ["DSC"])
+        return "clDSC" in (c.get("gmetrics") or []) or (h is not None and not used <= set(h["metrics"]))
+
+    def call(c, fn, j=None):
+        """lib_call, except that a configuration which may refuse inputs (or input j, if it holds a label of no class
+        group) is allowed to raise here (what it does to the baselines of the evaluate steps is checked there)."""
+        stray = j is not None and c.get("groups") and any((a == 7).any() for a in arrays[j])
+        if not may_refuse(c) and not stray:
+            return H.lib_call(fn)
+        try:
+            with H.quiet():
+                return fn()
+        except Exception:  # noqa
+            stats.count("side_operations_refused")
+            return None
+
+    def arrays_untouched(where):
+        for (p, r), (pc, rc), mt in zip(arrays, copies, metas):
+            for a, c, m in zip((p, r), (pc, rc), mt):
+                if not np.array_equal(a, c):
+                    raise Violation(f"{where}: a caller array was modified")
+                if (a.dtype, a.shape, a.strides, a.flags.c_contiguous, a.flags.f_contiguous, a.flags.writeable) != m:
+                    raise Violation(f"{where}: dtype/shape/flags of a caller array changed")
+
     scratch = tempfile.mkdtemp(prefix="pv_c15_")
     evaluated = {}
     touched_since = {}
@@ -276,6 +316,21 @@ def check(case, stats):
             if op in ("evaluate", "real_pool"):
                 p, r = arrays[j]
                 kw = {}
+                want = baseline(i, j)
+                if "__raised__" in want:
+                    # a pristine process refuses this input under this configuration: so must this evaluator, whatever
+                    # it has seen before - and refusing must not leave traces (checked by the later steps)
+                    try:
+                        with H.quiet(), (H.real_pools() if op == "real_pool" else contextlib.nullcontext()):
+                            evs[i].evaluate(p, r)
+                    except Exception:  # noqa
+                        stats.count("refused_inputs_refused_again")
+                    else:
+                        raise Violation(f"{where}: a pristine evaluator raises {want['__raised__']} for input {j}, this evaluator (with its history) returned a result")
+                    for t in touched_since:
+                        touched_since[t] = True
+                    arrays_untouched(where)
+                    continue
                 if op == "evaluate":
                     if s["result_all"] is not None:
                         kw["result_all"] = s["result_all"]
@@ -352,19 +407,23 @@ def check(case, stats):
                         H.lib_call(lambda: lib.groups([{"name": "a", "labels": [1, 2], "kind": "merge"}, {"name": "b", "labels": [3], "kind": "single"}]))
                     else:
                         e2 = H.lib_call(lib.evaluator, case["extra"])
-                        H.lib_call(e2.evaluate, *arrays[j])
+                        call(case["extra"], lambda: e2.evaluate(*arrays[j]), j)
                 elif op == "aggregate":
                     d = os.path.join(scratch, f"agg{k}")
                     os.makedirs(d)
                     agg = H.lib_call(lambda: Panoptica_Aggregator(evs[i], os.path.join(d, "out.tsv"), log_times=s["log_times"]))
-                    H.lib_call(agg.evaluate, arrays[j][0], arrays[j][1], f"subject{k}")
-                    if s["stat"]:
+                    done = call(case["evaluators"][i], lambda: (agg.evaluate(arrays[j][0], arrays[j][1], f"subject{k}"), True)[1], j)
+                    if s["stat"] and done:
                         H.lib_call(agg.make_statistic)
                 elif op == "load_shipped":
                     H.lib_call(Panoptica_Evaluator.load_from_config_name, s["name"])
                 elif op == "pair_twice":
                     # one processing-pair object handed to the pipeline function twice
                     cfg = case["evaluators"][i]
+                    if may_refuse(cfg) or may_refuse(case["extra"]):
+                        stats.count("pair_twice_skipped:configuration_may_refuse_inputs")
+                        arrays_untouched(where)
+                        continue
                     pair = H.lib_call(lambda: lib.input_type(cfg["input"]).value(arrays[j][0], arrays[j][1]))
                     def components(c):
                         k_ = {
@@ -406,12 +465,7 @@ def check(case, stats):
                     want = ask(("yaml", cur_cfg[i]))
                     if open(path).read() != want:
                         raise Violation(f"{where}: saved configuration of evaluator {i} differs from the one a pristine evaluator saves")
-            for (p, r), (pc, rc), mt in zip(arrays, copies, metas):
-                for a, c, m in zip((p, r), (pc, rc), mt):
-                    if not np.array_equal(a, c):
-                        raise Violation(f"{where}: a caller array was modified")
-                    if (a.dtype, a.shape, a.strides, a.flags.c_contiguous, a.flags.f_contiguous, a.flags.writeable) != m:
-                        raise Violation(f"{where}: dtype/shape/flags of a caller array changed")
+            arrays_untouched(where)
     finally:
         shutil.rmtree(scratch, ignore_errors=True)
     if n_real:
